@@ -993,9 +993,20 @@ def run(ctx):
         singleton = check_tau(ctx, twin)
         samples = run_framing(ctx, drv, twin)
         kernel_obligation(ctx, samples)
-        live = Live()
-        _load_corpus(ctx, live, drv, singleton)
-        run_live(ctx, drv, live, singleton)
+        framing_broken = [f["key"] for f in ctx.oracle_failures
+                          if f["key"].startswith("stream:") and not f["key"].endswith(":undefined")]
+        if framing_broken:
+            # frames do not survive the stream: a live pair would only stall on its first call
+            ctx.extra["live_pair"] = "not started: framing already fails (" + framing_broken[0] + ")"
+        else:
+            try:
+                live = Live()
+                _load_corpus(ctx, live, drv, singleton)
+                run_live(ctx, drv, live, singleton)
+            except Infra as e:
+                if not ctx.oracle_failures:
+                    raise
+                ctx.extra["live_pair"] = f"aborted after a failing input had been found: {e}"
     finally:
         try:
             if live is not None:
